@@ -724,7 +724,9 @@ Section RunPsoga.
   Definition psoga_generation (it : nat) (inds pop : list ind) (log : list pev) : option (list ind * list ind * list pev) :=
     let log := log ++ [PCopy inds] in
     let offs := o_copy log inds in
-    let log := ((log ++ [PVelocity offs]) ++ [PPosition offs]) ++ [PEvaluate offs] in
+    let log := log ++ [PVelocity offs] in
+    let log := log ++ [PPosition offs] in
+    let log := log ++ [PEvaluate offs] in
     let log := log ++ [PTour offs] in
     let first := o_tour log offs in
     let log := log ++ [PTour offs] in
@@ -743,8 +745,11 @@ Section RunPsoga.
         let c2 := o_new log v2 in
         let c1 := set_feat c1 (feat log first) in
         let c2 := set_feat c2 (feat log second) in
-        let offs := (offs ++ [c1]) ++ [c2] in
-        let log := ((log ++ [PEvaluate offs]) ++ [PPBest offs]) ++ [PGlobalBest offs] in
+        let offs := offs ++ [c1] in
+        let offs := offs ++ [c2] in
+        let log := log ++ [PEvaluate offs] in
+        let log := log ++ [PPBest offs] in
+        let log := log ++ [PGlobalBest offs] in
         Some (offs, pop ++ offs, log ++ per_particle (it + 1) offs)
     | _, _ => None
     end.
@@ -811,8 +816,25 @@ Section RunPsoga.
   Lemma psoga_stop3 : forall l st, psoga_run_l3_ret st <> None -> fold_left b3 l st = st.
   Proof.
     apply (fold_left_stop _ (fun st => psoga_run_l3_ret st <> None)).
-    intros st x Hs. unfold psoga_run_l3_body. destruct (psoga_run_l3_ret st); congruence.
+    intros st x Hs. cbv beta delta [psoga_run_l3_body]. destruct (psoga_run_l3_ret st); congruence.
   Qed.
+
+  (* one `let` at a time, outermost first, its value named by a variable first: the generated step nests 14 event-log
+     lets, each log in the arguments of the next oracle; expanding them all at once is exponential in the term's size *)
+  Ltac zeta1 :=
+    match goal with
+    | |- context G [let x := ?v in @?b x] =>
+        first [ is_var v; let t := eval cbv beta in (b v) in let g := context G [t] in change g
+              | match goal with
+                | z := ?w |- _ => constr_eq w v; let t := eval cbv beta in (b z) in let g := context G [t] in change g
+                end
+              | let y := fresh "y" in
+                set (y := v);
+                match goal with
+                | |- context G' [let x := y in @?b' x] =>
+                    let t := eval cbv beta in (b' y) in let g := context G' [t] in change g
+                end ]
+    end.
 
   Lemma psoga_runloop3 : forall its inds pop log,
     match psoga_generations its inds pop log with
@@ -822,12 +844,17 @@ Section RunPsoga.
   Proof.
     induction its as [|it its IH]; intros inds pop log; cbn [fold_left psoga_generations]; [reflexivity|].
     match goal with |- context [fold_left ?f its (?f ?s it)] => set (F := fold_left f its) end.
-    unfold psoga_run_l3_body. cbn [psoga_run_l3_ret psoga_run_l3_v1 psoga_run_l3_v2 psoga_run_l3_v3].
-    unfold psoga_generation.
-    match goal with |- context [nth_error ?p 0] => generalize p; intros pair end.
-    destruct (nth_error pair 0) as [v1|]; [|subst F; rewrite psoga_stop3 by (cbn; discriminate); reflexivity].
-    destruct (nth_error pair 1) as [v2|]; [|subst F; rewrite psoga_stop3 by (cbn; discriminate); reflexivity].
-    unfold psoga_run_l4_run. rewrite psoga_runloop4. unfold psoga_run_l4_after. cbn [psoga_run_l4_ret psoga_run_l4_v1 psoga_run_l4_v2].
+    cbv beta iota delta [psoga_run_l3_body psoga_generation psoga_run_l3_ret psoga_run_l3_v1 psoga_run_l3_v2 psoga_run_l3_v3].
+    repeat zeta1.
+    repeat match goal with y := _ |- _ => tryif constr_eq y F then fail else clearbody y end.
+    match goal with |- context [nth_error ?p 0] => destruct (nth_error p 0) as [v1|] end;
+      [|subst F; rewrite psoga_stop3 by (cbn; discriminate); reflexivity].
+    match goal with |- context [nth_error ?p 1] => destruct (nth_error p 1) as [v2|] end;
+      [|subst F; rewrite psoga_stop3 by (cbn; discriminate); reflexivity].
+    repeat zeta1.
+    repeat match goal with y := _ |- _ => tryif constr_eq y F then fail else clearbody y end.
+    unfold psoga_run_l4_run. rewrite psoga_runloop4. unfold psoga_run_l4_after.
+    cbv beta iota delta [psoga_run_l4_ret psoga_run_l4_v1 psoga_run_l4_v2].
     subst F. apply IH.
   Qed.
 
@@ -847,6 +874,78 @@ Section RunPsoga.
   Qed.
 
 End RunPsoga.
+
+(* ---------------------------------------------------------------------------------------------- *)
+(* select_leader of the three classes (the same text three times), whole methods.  Model/Swarm.v takes the leader as an
+   input of update_velocity (v_leader), so there is no model function; the specification is defined here:
+   a sole leader is returned by rand_choice(); otherwise rand_sample(2) and the binary tournament on
+   features['crowding_distance']: the SECOND candidate wins only with a strictly larger distance.
+     SSize / SChoice / SSample n   self.leaders.size() / rand_choice() / rand_sample(n), answers arbitrary in the log;
+   None = rand_sample answered fewer than two members (IndexError). *)
+Section SelectLeader.
+  Context {T ind : Type} (ltb : T -> T -> bool) (cd : ind -> T).
+  Inductive sev : Type := SSize | SChoice | SSample (n : nat).
+  Variables (o_size : list sev -> nat) (o_choice : list sev -> ind) (o_sample : list sev -> nat -> list ind).
+
+  Definition select_leader_spec : option (ind * list sev) :=
+    if Nat.eqb (o_size [SSize]) 1 then Some (o_choice [SSize; SChoice], [SSize; SChoice])
+    else match o_sample [SSize; SSample 2] 2 with
+         | c0 :: c1 :: _ => Some (if ltb (cd c0) (cd c1) then c1 else c0, [SSize; SSample 2])
+         | _ => None
+         end.
+
+  (* unfolds the generated function and its lifted continuations (if any), whatever they are called *)
+  Ltac select_leader_proof :=
+    cbv beta zeta delta -[Nat.eqb nth_error app]; cbn [app]; rewrite ?(Nat.eqb_sym 1); destruct (Nat.eqb (o_size [SSize]) 1); [reflexivity|];
+    destruct (o_sample [SSize; SSample 2] 2) as [|c0 [|c1 r]]; cbn [nth_error]; try reflexivity;
+    destruct (ltb (cd c0) (cd c1)); reflexivity.
+
+  Theorem omopso_select_leader_gen_eq_model :
+    omopso_select_leader_gen ltb cd SSize SChoice SSample o_size o_choice o_sample = select_leader_spec.
+  Proof. select_leader_proof. Qed.
+
+  Theorem smpso_select_leader_gen_eq_model :
+    smpso_select_leader_gen ltb cd SSize SChoice SSample o_size o_choice o_sample = select_leader_spec.
+  Proof. select_leader_proof. Qed.
+
+  Theorem psoga_select_leader_gen_eq_model :
+    psoga_select_leader_gen ltb cd SSize SChoice SSample o_size o_choice o_sample = select_leader_spec.
+  Proof. select_leader_proof. Qed.
+End SelectLeader.
+
+(* ---------------------------------------------------------------------------------------------- *)
+(* SMPSO / PSOGA.init_pvelocity, whole methods (write log of features['velocity']): every particle gets a new list of
+   len(vector) zeros, in list order *)
+Section InitVelocity.
+  Context {T P : Type} (zero : T) (vec : P -> list T).
+  Definition init_velocity_spec (ps : list P) : list (list T) := map (fun p => repeat zero (length (vec p))) ps.
+
+  Lemma smpso_init_loop : forall ps acc,
+    fold_left (@smpso_init_pvelocity_l1_body T P zero vec) ps (Build_smpso_init_pvelocity_l1_st acc None) =
+    Build_smpso_init_pvelocity_l1_st (acc ++ init_velocity_spec ps) None.
+  Proof.
+    induction ps as [|p ps IH]; intros acc; cbn [fold_left init_velocity_spec map].
+    - now rewrite app_nil_r.
+    - unfold smpso_init_pvelocity_l1_body at 2. cbn [smpso_init_pvelocity_l1_ret smpso_init_pvelocity_l1_v1].
+      rewrite IH. now rewrite <- app_assoc.
+  Qed.
+
+  Theorem smpso_init_pvelocity_gen_eq_model : forall ps : list P, smpso_init_pvelocity_gen zero vec ps = init_velocity_spec ps.
+  Proof. intros ps. unfold smpso_init_pvelocity_gen, smpso_init_pvelocity_l1_run. rewrite smpso_init_loop. reflexivity. Qed.
+
+  Lemma psoga_init_loop : forall ps acc,
+    fold_left (@psoga_init_pvelocity_l1_body T P zero vec) ps (Build_psoga_init_pvelocity_l1_st acc None) =
+    Build_psoga_init_pvelocity_l1_st (acc ++ init_velocity_spec ps) None.
+  Proof.
+    induction ps as [|p ps IH]; intros acc; cbn [fold_left init_velocity_spec map].
+    - now rewrite app_nil_r.
+    - unfold psoga_init_pvelocity_l1_body at 2. cbn [psoga_init_pvelocity_l1_ret psoga_init_pvelocity_l1_v1].
+      rewrite IH. now rewrite <- app_assoc.
+  Qed.
+
+  Theorem psoga_init_pvelocity_gen_eq_model : forall ps : list P, psoga_init_pvelocity_gen zero vec ps = init_velocity_spec ps.
+  Proof. intros ps. unfold psoga_init_pvelocity_gen, psoga_init_pvelocity_l1_run. rewrite psoga_init_loop. reflexivity. Qed.
+End InitVelocity.
 
 (* ---------------------------------------------------------------------------------------------- *)
 (* the binary64 instances (they pin the operators and the literals 0, 2 and round(., 1)) against the instance
@@ -874,5 +973,21 @@ Corollary psoga_update_velocity_whole_gen_float : forall (P : Type) (vec best : 
   | None => None
   end.
 Proof. intros. unfold psoga_update_velocity_gen_f. apply psoga_update_velocity_gen_eq_model. Qed.
+
+Corollary select_leader_gen_float : forall (ind : Type) (cd : ind -> float) o_size o_choice o_sample,
+  omopso_select_leader_gen_f cd SSize SChoice SSample o_size o_choice o_sample = select_leader_spec PrimFloat.ltb cd o_size o_choice o_sample /\
+  smpso_select_leader_gen_f cd SSize SChoice SSample o_size o_choice o_sample = select_leader_spec PrimFloat.ltb cd o_size o_choice o_sample /\
+  psoga_select_leader_gen_f cd SSize SChoice SSample o_size o_choice o_sample = select_leader_spec PrimFloat.ltb cd o_size o_choice o_sample.
+Proof.
+  intros. split; [|split].
+  - apply omopso_select_leader_gen_eq_model.
+  - apply smpso_select_leader_gen_eq_model.
+  - apply psoga_select_leader_gen_eq_model.
+Qed.
+
+Corollary init_pvelocity_gen_float : forall (P : Type) (vec : P -> list float) (ps : list P),
+  smpso_init_pvelocity_gen_f vec ps = init_velocity_spec 0%float vec ps /\
+  psoga_init_pvelocity_gen_f vec ps = init_velocity_spec 0%float vec ps.
+Proof. intros. split; [apply smpso_init_pvelocity_gen_eq_model | apply psoga_init_pvelocity_gen_eq_model]. Qed.
 
 (* Print Assumptions of the theorems above is run by harness/core.py translated_obligations (qualified names, whitelist) *)
